@@ -273,7 +273,10 @@ def _fusion_job(fam_name, tier):
     from vf import explore
     from vf.props import c19
     fam = c19.FAMILIES[fam_name]
-    bound = fam.get("bound", {}).get(tier, c19.BOUND[tier])
+    # instances: the family's QUICK plan in both tiers (one process handles a whole family: the thorough plans of C19, up to
+    # 10k configurations per family, would take hours in a single chain); the thorough tier adds the families that C19
+    # runs only there and more dimension orders
+    bound = fam.get("bound", {}).get("quick", c19.BOUND["quick"])
     st = explore.Stats()
     cfgs = [cfg for _, cfg in explore.explore(c19._make_driver(fam), bound=bound, stats=st)]
     res = {"rule": "fusion:" + fam_name, "instances": len(cfgs), "forks": 0, "applications": 0, "orders": [],
